@@ -435,6 +435,31 @@ static void space_integrity(int mode)
 				}
 			}
 		}
+		/* two bytes changed at once (pairs=1): every pair of header positions x 15 x 15 replacement values, the additive checksum
+		 * of levels 0/1 re-made for every other combination so that the second rule in line is what decides */
+		if (atoi(vf_extra("pairs", "0"))) {
+			static const uint8_t qv[15] = { 0x00, 0x01, 0x02, 0x03, 0x04, 0x1F, 0x20, 0x2D, 0x2F, 0x5C, 0x7C, 0x7F, 0x80, 0xFE, 0xFF };
+			static uint8_t t[1024];
+			size_t p1, p2;
+			int a, b;
+			for (p1 = 0; p1 < hl; ++p1) {
+				if (!vf_case("seed=%d byte %zu of %zu and every later byte: 15 x 15 replacement values", si, p1, hl)) continue;
+				for (p2 = p1 + 1; p2 < hl; ++p2)
+				for (a = 0; a < 15; ++a)
+				for (b = 0; b < 15; ++b) {
+					if (qv[a] == seed[p1] || qv[b] == seed[p2]) continue;
+					memcpy(t, seed, full);
+					t[p1] = qv[a]; t[p2] = qv[b];
+					if (rh.level <= 1 && ((a + b) & 1) && p1 > 1) {
+						unsigned sum = 0; size_t q;
+						for (q = 2; q < (size_t) t[0] + 2 && q < full; ++q) sum += t[q];
+						t[1] = (uint8_t) sum;
+					}
+					perturbed_case(t, full, hl, 0, 1, mode);
+				}
+				vf_nontrivial(vf_mix(si * 4096 + p1, 999));
+			}
+		}
 	}
 }
 
